@@ -30,6 +30,7 @@ W48 == {4, 8}
 W4 == {4}
 W8_12 == {8, 12}
 W8 == {8}
+W44 == {44}
 BothFlavors == {"blocking", "tokio"}
 OnlyTokio == {"tokio"}
 OnlyBlocking == {"blocking"}
